@@ -275,7 +275,7 @@ theorem takeUntil_total {inp : Input} {term : Nat → Bool} {start l : Loc}
     (hland : Lands inp l (scanUntil inp term l)) :
     takeUntil inp start term l =
       .ok (scanUntil inp term l, (start.abs, (scanUntil inp term l).abs)) := by
-  unfold takeUntil
-  rw [slice_ok hs hland.1 (by have := hland.2; omega)]
+  have h := slice_ok hs hland.1 (by have := hland.2; omega)
+  simp only [takeUntil, h]
 
 end GluonModel.Tokenizer
